@@ -499,7 +499,14 @@ def case_cuts(arg):
     names = spcnames(cfg)
     tmp = scratch('camxC')
     data = serialise(item['recs'])
-    cls = readers(cfg['fmt'])[rname]
+    # ('memmap+': the memory-mapped reader in update mode - it must not
+    # change the file it is asked to read either)
+    kw = {'mode': 'r+'} if rname == 'memmap+' else {}
+    rcls = readers(cfg['fmt'])[rname.rstrip('+')]
+
+    def cls(p, c):
+        return rcls(p, c, **kw)
+    rname = rname.rstrip('+')
     obs = []
 
     class Hang(Exception):
@@ -514,7 +521,7 @@ def case_cuts(arg):
             with open(path, 'wb') as fo:
                 fo.write(data[:n])
             o = {'n': n, 'k': 'Err', 'steps': 0, 'data': [], 'dataok': True,
-                 'tflag': []}
+                 'tflag': [], 'grew': False}
             signal.setitimer(signal.ITIMER_REAL, 15.0)
             g = None
 
@@ -548,6 +555,11 @@ def case_cuts(arg):
                     signal.setitimer(signal.ITIMER_REAL, 0)
                 except Hang:
                     signal.setitimer(signal.ITIMER_REAL, 0)
+            try:
+                del g
+            except Exception:
+                pass
+            o['grew'] = bool(os.path.getsize(path) != n)
             obs.append(o)
             os.remove(path)
         return {'tid': tid, 'kind': 'cuts', 'cfg': cfg, 'names': names,
